@@ -382,6 +382,20 @@ func TestPlanted(t *testing.T) {
 }
 
 func TestReplay(t *testing.T) {
+	if strings.Contains(evid.ReplayTest(), "TestCLIBooleanOptions") {
+		var fc FlagCase
+		ok, err := evid.ReplayCase(&fc)
+		if !ok {
+			t.Skip("no VERIF_REPLAY")
+		}
+		if err != nil {
+			t.Fatal(err)
+		}
+		r := evid.R()
+		defer r.Begin(t)()
+		runFlagCase(context.Background(), t, r, &fc)
+		return
+	}
 	if strings.Contains(evid.ReplayTest(), "TestPackageOptionConsistency") {
 		var pc PkgOptCase
 		ok, err := evid.ReplayCase(&pc)
